@@ -8,12 +8,17 @@
 //              [moveagain=0] (moveToOwnThread once more, while the backlog is queued, right before the stop)
 //              [stagger=0] [after=2] [cycles=3] [producers=3] [per=20] [loop=1] [stop=reset|quit]
 //              [seed=1] [pace=<us>] [yield=<point>:<us>,...]
+//   path=rejecting: NOT a Logger but a bare OwnThreadHandler<FunctionHandler> whose wrapped function REJECTS
+//              (process() returns false for) the messages marked r in [reject=ara] (cyclic over the message ids);
+//              [cycles=1] x { moveToOwnThread, <backlog> messages, stop, 1 message } with [stop=reset|quit|delete]
+//              (explicit resetOwnThread(), aboutToQuit of a running event loop, destructor), then <after> messages
 //
 // lines:  POST i (hook own.locked, mutex held, message i is being accepted)   ACCEPTED i p (the
 //   logging call of producer p for message i has returned)   TAKE / DONE (hooks worker.before_process
 //   / worker.decremented)   DELIVER i a|s (recording sink is done with i; s = on the caller's thread)
 //   RLOCKED t / RWAIT t / RQUIT t (hooks reset.locked / reset.waiting / reset.quit on stopper thread t)
 //   MOVE   STOP_BEGIN   STOP_END t (explicit resetOwnThread() returned, or exec() returned after quit)   APP_DYING APP_GONE
+//   (DELIVER i a|s r = the wrapped handler returned false for i)
 //   MAIN_RETURN   EXIT (atexit handler registered before the logger singleton exists, i.e. run
 //   after its destructor)   OVERLAP i (two threads inside the sink)   FOREIGN i (a message not
 //   produced by the harness, e.g. a Qt warning, was given id i)
@@ -122,6 +127,40 @@ struct RecSink : QtLogger::Sink
         g_inside.fetch_sub(1);
     }
 };
+
+// path=rejecting: the handler wrapped by a bare OwnThreadHandler<FunctionHandler>; a level filter with a side
+// effect, as a plain function: it records the message, then rejects it (returns false) or not
+static std::string g_reject = "ara";
+static int g_fn_delay = 0;
+static bool rejectingFunction(QtLogger::LogMessage &m)
+{
+    const QByteArray t = m.message().toUtf8();
+    int id = t.size() > 1 && t[0] == 'm' ? atoi(t.constData() + 1) : -1;
+    if (g_inside.fetch_add(1) != 0) emitf("OVERLAP %d\n", id);
+    g_entered.fetch_add(1);
+    if (g_fn_delay > 0) usleep(1000 * g_fn_delay);
+    const bool rejected = id >= 0 && !g_reject.empty() && g_reject[id % g_reject.size()] == 'r';
+    emitf("DELIVER %d %c%s\n", id, t_in_call ? 's' : 'a', rejected ? " r" : "");
+    g_inside.fetch_sub(1);
+    return !rejected;
+}
+using BareHandler = QtLogger::OwnThreadHandler<QtLogger::FunctionHandler>;
+static void bareLog(BareHandler &h, int n, bool stagger)
+{
+    for (int i = 0; i < n; i++) {
+        int before = g_entered.load();
+        int id = g_next.fetch_add(1);
+        QtLogger::LogMessage lmsg(QtInfoMsg, QMessageLogContext("h_shutdown.cpp", id, "bareLog", "verif"), QStringLiteral("m%1").arg(id));
+        t_cur = id;
+        t_in_call = true;
+        h.process(lmsg);
+        t_in_call = false;
+        t_cur = -1;
+        emitf("ACCEPTED %d 0\n", id);
+        if (stagger && i == 0 && n > 1)
+            for (int k = 0; k < 400 && g_entered.load() == before; k++) usleep(500);
+    }
+}
 
 static QtLogger::Logger *L = nullptr; // the logger under test: the singleton, or an own object (path=scoped)
 static std::map<std::string, std::string> A;
@@ -249,6 +288,47 @@ int main(int argc, char **argv)
         }
     }
 
+    if (path == "rejecting") {
+        g_reject = gets("reject", "ara");
+        g_fn_delay = delay;
+        const std::string stop = gets("stop", "reset");
+        const int ncyc = geti("cycles", 1);
+        {
+            QCoreApplication app(argc, argv);
+            auto *h = new BareHandler(&rejectingFunction);
+            auto body = [&]() {
+                for (int c = 0; c < ncyc; c++) {
+                    const bool last = c + 1 == ncyc;
+                    if (async) { emitf("MOVE\n"); h->moveToOwnThread(); }
+                    bareLog(*h, backlog, stagger);
+                    if (last && stop == "quit") return; // stopped by aboutToQuit
+                    emitf("STOP_BEGIN\n");
+                    if (last && stop == "delete") { delete h; h = nullptr; }
+                    else h->resetOwnThread();
+                    emitf("STOP_END 0\n");
+                    if (h) bareLog(*h, 1, false);
+                }
+            };
+            if (loop || stop == "quit") {
+                QTimer::singleShot(0, &app, [&]() {
+                    body();
+                    if (stop == "quit") emitf("STOP_BEGIN\n");
+                    app.quit();
+                });
+                app.exec();
+                if (stop == "quit") emitf("STOP_END 0\n");
+            } else {
+                body();
+            }
+            if (h) bareLog(*h, after, false);
+            delete h;
+            emitf("APP_DYING\n");
+        }
+        usleep(20000);
+        emitf("APP_GONE\n");
+        emitf("MAIN_RETURN\n");
+        return 0;
+    }
     L = path == "scoped" ? new QtLogger::Logger : &gQtLogger;
     if (path == "leakapp") { // destructor at exit while the application object still exists
         auto *app = new QCoreApplication(argc, argv); // never deleted
